@@ -461,6 +461,16 @@ variable {α : Type} [Num α] [Sample α]
         r := r.add (Num.lt b a == false) fun _ => s!"a={sh a} b={sh b}"
   return r
 
+/-- `BeqOrd : ∀ a b, beq a b = (!lt a b && !lt b a)` on non-NaN values (`Props/C04Quotient.lean`: `==` is
+order-equivalence, `+0 == −0` included). -/
+@[specialize] def check_BeqOrd (grid : Array α) : Res := Id.run do
+  let mut r : Res := {}
+  for a in grid do
+    for b in grid do
+      if Num.isNaN a = false && Num.isNaN b = false then
+        r := r.add (Num.beq a b == (!Num.lt a b && !Num.lt b a)) fun _ => s!"a={sh a} b={sh b}"
+  return r
+
 /-- `GoodSet.notNaN : ∀ v, G v → isNaN v = false` -/
 @[specialize] def check_GoodSet_notNaN (G : α → Bool) (grid : Array α) : Res := Id.run do
   let mut r : Res := {}
